@@ -326,3 +326,69 @@ func (c Clock) HybridTs(tick int) uint64 { return uint64(c.Base+int64(tick)) << 
 func (c Clock) Tick(ts uint64) int64 { return int64(ts>>18) - c.Base }
 
 func (c Clock) TimeOfTick(tick int) time.Time { return time.UnixMilli(c.Base + int64(tick)) }
+
+// ---- bulk writes (large catalogs: thousands of records per plan)
+
+// KV is one record to be written by PutBatch.
+type KV struct {
+	Key string
+	Val []byte
+}
+
+// CollectionKV / PartitionKV build the records PutCollection / PutPartition would write.
+func (w *Writer) CollectionKV(c Collection) KV {
+	b, _ := proto.Marshal(c.Info())
+	return KV{Key: w.CollectionKey(c.DbID, c.ID), Val: b}
+}
+
+func (w *Writer) PartitionKV(p Partition) KV {
+	b, _ := proto.Marshal(p.Info())
+	return KV{Key: w.PartitionKey(p.CollID, p.ID), Val: b}
+}
+
+// CollectionPrefix / PartitionPrefix are the prefixes EtcdOp lists (with the trailing slash).
+func (w *Writer) CollectionPrefix() string {
+	return fmt.Sprintf("%s/%s/%s/", w.Root, w.Meta, collectionPrefix)
+}
+
+func (w *Writer) PartitionPrefix() string {
+	return fmt.Sprintf("%s/%s/%s/", w.Root, w.Meta, partitionPrefix)
+}
+
+// PutBatch writes the records in transactions of at most 100 puts (etcd's default limit is 128 operations).
+func (w *Writer) PutBatch(kvs []KV) {
+	const per = 100
+	for len(kvs) > 0 {
+		n := len(kvs)
+		if n > per {
+			n = per
+		}
+		ops := make([]clientv3.Op, 0, n)
+		for _, kv := range kvs[:n] {
+			ops = append(ops, clientv3.OpPut(kv.Key, string(kv.Val)))
+		}
+		ctx, cancel := context.WithTimeout(context.Background(), 30*time.Second)
+		_, err := w.Cli.Txn(ctx).Then(ops...).Commit()
+		cancel()
+		if err != nil {
+			panic(fmt.Sprintf("catalog batch put (%d records from %s): %v", n, kvs[0].Key, err)) // machinery failure
+		}
+		kvs = kvs[n:]
+	}
+}
+
+// Keys returns every key below the prefix in the store's order (ascending by key bytes).
+func (w *Writer) Keys(prefix string) []string {
+	ctx, cancel := context.WithTimeout(context.Background(), 30*time.Second)
+	defer cancel()
+	resp, err := w.Cli.Get(ctx, prefix, clientv3.WithPrefix(), clientv3.WithKeysOnly(),
+		clientv3.WithSort(clientv3.SortByKey, clientv3.SortAscend))
+	if err != nil {
+		panic(fmt.Sprintf("catalog keys %s: %v", prefix, err))
+	}
+	res := make([]string, 0, len(resp.Kvs))
+	for _, kv := range resp.Kvs {
+		res = append(res, string(kv.Key))
+	}
+	return res
+}
